@@ -114,6 +114,17 @@ class C02(common.ModelProperty):
     def invariants(self, snap):
         return check_membership(snap)
 
+    def canon(self, state):
+        # the property orders Universe.vertices only; the order of a vertex's
+        # own `universes` list is C03's business, not this property's
+        out = {}
+        for lab, d in state.items():
+            if "universes" in d:
+                d = dict(d)
+                d["universes"] = sorted(d["universes"])
+            out[lab] = d
+        return out
+
     def execute(self, st, op):
         s = st.stats
         k = op["op"]
